@@ -1070,8 +1070,11 @@ impl<'a, 'e> Translator<'a, 'e> {
 
                 // If `base` exists and is non-trivial we need to introduce bindings for each
                 // value to ensure that the expressions are evaluated in the correct order
+                // The fields are placed in the order of the record type below, so more than one
+                // field also needs bindings (even if `base` is a plain identifier) to keep the
+                // evaluation in source order
                 let needs_bindings = base.as_ref().map_or(false, |base| match base.value {
-                    ast::Expr::Ident(_) => false,
+                    ast::Expr::Ident(_) => exprs.len() > 1,
                     _ => true,
                 });
 
